@@ -355,7 +355,9 @@ def check_cache_inv(h: LLHandle) -> Optional[Tuple[str, Any, Any, Any]]:
         if n != fn or [canon_obj(x) for x in objs] != [canon_obj(x) for x in fo]:
             return ("parsed object-stream cache entry differs from a fresh parse", sid, "fresh", "cached")
     for objid, font in sorted(h.rsrc._cached_fonts.items(), key=lambda kv: repr(kv[0])):
-        ff = PDFResourceManager(caching=False).get_font(objid, dict_value(fresh.getobj(objid)))
+        from pdfminer.pdftypes import PDFObjRef
+        # through a reference, like init_resources does: an object id that resolves to nothing gives {}
+        ff = PDFResourceManager(caching=False).get_font(objid, dict_value(PDFObjRef(fresh, objid)))
         a, b = font_fingerprint(font), font_fingerprint(ff)
         if a != b:
             return ("font cache entry differs from a freshly built font", objid, repr(b)[:400], repr(a)[:400])
@@ -854,7 +856,8 @@ class Exec:
         if hasattr(ip, "gstack"):      # init_state has run at least once
             left = "%d.%d.%d.%d" % (len(ip.curpath), len(ip.gstack), int(ip.graphicstate.linewidth), len(ip.argstack))
         return "objs=" + ",".join(map(str, st["objs"])) + " pobjs=" + ",".join(map(str, st["pobjs"])) + \
-            " fonts=" + ",".join(map(str, st["fonts"])) + " interp=" + left
+            " fonts=" + ",".join(map(str, st["fonts"])) + \
+            " busy=%d" % len(getattr(hd.pdoc, "_objstms_in_progress", ())) + " interp=" + left
 
     def cmapparse(self, idx: int, name: str, tags) -> None:
         """The anchored copy mechanism CMap.use_cmap: build a private CMap on top of a shared one
@@ -1097,10 +1100,10 @@ def show_codes(fd: P.FontDesc, s: bytes, cm: NameIds) -> List[int]:
 
 
 def doc_tokens(d: P.Doc, cm: NameIds, um: NameIds, gidx: Dict[str, int]) -> List[int]:
-    objnums = sorted(set(d.all_objnums) | ({d.objstm_id} if d.objstm else set()))
+    objnums = sorted(set(d.all_objnums) | ({d.objstm_id} if d.objstm else set()) | set(d.dangling_in_stream))
     t: List[int] = [len(objnums)]
     for n in objnums:
-        t += [n, d.objstm_id if n in d.objstm else 0]
+        t += [n, d.objstm_id if (n in d.objstm or n in d.dangling_in_stream) else 0, int(n in d.dangling_in_stream)]
     t.append(len(d.fonts))
     for n, fd in sorted(d.fonts.items()):
         t.append(n)
@@ -1212,7 +1215,7 @@ def model_check(ctx: C.Ctx, seed: str, docs, ops, ex) -> None:
             return
         ctx.branch("tie:tables")
         if obs["caches"] is not None:
-            got = " ".join(f"{k}={fields.get(k, '')}" for k in ("objs", "pobjs", "fonts", "interp"))
+            got = " ".join(f"{k}={fields.get(k, '')}" for k in ("objs", "pobjs", "fonts", "busy", "interp"))
             want = obs["caches"]
             if want.endswith("interp=-"):          # no page interpreted yet: the model starts from Interp.init
                 want = want[:-1] + "0.0.0.0"
